@@ -9,8 +9,9 @@
      - the call-granularity run ([step] / [run]): every push_batch / drop / poll_next call runs its sections in program
        order without interruption.  This is what the harness replays on the real channel, and what the theorems of
        Proofs/SpillPoolProofs.v quantify over (all interleavings of CALLS);
-     - the critical-section-granularity run ([fstep] / [frun]): threads are preempted between sections.  It is
-       executable and explored exhaustively for small bounds (a test, see [explore]), not covered by the theorems.
+     - the critical-section-granularity run ([fstep] / [frun] in Model/SpillPoolFine.v): threads are preempted between
+       sections.  It is executable and explored exhaustively for small bounds (a test, see [explore] there), not covered
+       by the theorems.
 
    Modelling decisions (each checked against the code):
      * `files` is [skipn qfront store]: files are only pushed at the back (push_batch) and popped at the front (reader),
